@@ -10,6 +10,7 @@
   R4 reshape pipeline    unflatten -> private copies of the axes -> squeeze(dim) -> transpose -> newaxis(dim, pos=i) -> flatten(group, insert=i);
                          the temporary ','->';' renaming is applied to the private copies only; early exit is order-sensitive
   R5 tuple reductions    see C08-R3 (_deal_with_axis)
+  R6 labels after a tuple reduction   argmin / argmax over a tuple of dimensions look the labels up on the grouped array (see C09-R3)
 """
 from .. import terms as T
 from ..terms import const
@@ -469,6 +470,10 @@ def check(ctx):
     from . import c08 as _c08
     from ..report import Renamed as _Ren2
     _c08.rule_deal_with_axis(_Ren2(ctx, {'*': 'R5'}))
+    # ... and what is looked up after a reduction over the group (argmin / argmax labels) must be read from the grouped array, not from the original one
+    # (shared with C09-R3)
+    from . import c09 as _c09
+    _c09.rule_arg(_Ren2(ctx, {'*': 'R6'}))
     ctx.not_decided += ['value at each grouped position (follows from NumPy C-order semantics, trusted)', 'reverse= and set-valued dims of flatten']
     ctx.trusted += ['ndarray.reshape is C-ordered by default', "np.meshgrid(indexing='ij') + ravel() enumerates in row-major order of the inputs"]
     return EXPLANATION
